@@ -302,33 +302,55 @@ def sort_group(tier='quick'):
     fails, cases = [], 0
     alphabet = (0, 1, 2)
     maxn = 5 if tier == 'quick' else 7
+    gids = [('s', lambda ex: ex['s']), ('(s, room)', lambda ex: (ex['s'], 'room')), ('(s, s)', lambda ex: (ex['s'], ex['s'])),
+            ('()', lambda ex: ()), ('None if s == 0 else s', lambda ex: None if ex['s'] == 0 else ex['s']),
+            ('None', lambda ex: None), ('s > 0', lambda ex: ex['s'] > 0), ('str', lambda ex: 'g%d' % ex['s']),
+            ('None if s == 2 else "x"', lambda ex: None if ex['s'] == 2 else 'x')]
     for n in range(0, maxn + 1):
         for vals in itertools.product(alphabet, repeat=n):
             keys = ['k%d' % ((i * 3) % 7 + 10 * i) for i in range(n)]
             ds = lazy_dataset.new({k: {'s': v, 'payload': {'not': 'comparable'}} for k, v in zip(keys, vals)})
             for rev in (False, True):
                 cases += 1
-                out = ds.sort(lambda ex: ex['s'], reverse=rev)
-                got = [ex['s'] for ex in out]
-                if sorted(out.keys()) != sorted(keys) or got != sorted(vals, reverse=rev) or \
-                        any(out[k] != ds[k] for k in keys):
-                    _fail(fails, 'sort(key_fn) of %r reverse=%s' % (vals, rev), 'sort-permutation-ordered', (got, list(out.keys())), sorted(vals, reverse=rev))
+                try:
+                    out = ds.sort(lambda ex: ex['s'], reverse=rev)
+                    got = [ex['s'] for ex in out]
+                    ok = sorted(out.keys()) == sorted(keys) and got == sorted(vals, reverse=rev) and all(out[k] == ds[k] for k in keys)
+                    obs = (got, list(out.keys()))
+                except Exception as e:      # noqa
+                    ok, obs = False, '%s: %s' % (type(e).__name__, str(e)[:80])
+                if not ok:
+                    _fail(fails, 'sort(key_fn) of %r reverse=%s' % (vals, rev), 'sort-permutation-ordered', obs, sorted(vals, reverse=rev))
                     return cases, fails
-                out = ds.sort(reverse=rev)
-                if list(out.keys()) != sorted(keys, reverse=rev):
-                    _fail(fails, 'sort() by keys reverse=%s' % rev, 'sort-by-keys', list(out.keys()), sorted(keys, reverse=rev))
+                try:
+                    out = ds.sort(reverse=rev)
+                    obs = list(out.keys())
+                except Exception as e:      # noqa
+                    obs = '%s: %s' % (type(e).__name__, str(e)[:80])
+                if obs != sorted(keys, reverse=rev):
+                    _fail(fails, 'sort() by keys of %d examples reverse=%s' % (n, rev), 'sort-by-keys', obs, sorted(keys, reverse=rev))
                     return cases, fails
-            for gid in (lambda ex: ex['s'], lambda ex: (ex['s'], 'room'), lambda ex: (ex['s'], ex['s']), lambda ex: ()):
+                # sorting a key-less (list-backed) dataset with a key function, custom sort_fn
+                lst = lazy_dataset.new([{'s': v} for v in vals])
+                try:
+                    got = [ex['s'] for ex in lst.sort(lambda ex: ex['s'], sort_fn=sorted, reverse=rev)]
+                except Exception as e:      # noqa
+                    got = '%s: %s' % (type(e).__name__, str(e)[:80])
+                if got != sorted(vals, reverse=rev):
+                    _fail(fails, 'list dataset sort(key_fn) of %r reverse=%s' % (vals, rev), 'sort-permutation-ordered', got, sorted(vals, reverse=rev))
+                    return cases, fails
+            for gname, gid in gids:
                 cases += 1
-                if not n:
-                    continue
-                groups = ds.groupby(gid)
                 want = {}
                 for k in keys:
                     want.setdefault(gid(ds[k]), []).append(k)
-                got = {g: list(d.keys()) for g, d in groups.items()}
+                try:
+                    groups = ds.groupby(gid)
+                    got = {g: list(d.keys()) for g, d in groups.items()}
+                except Exception as e:      # noqa
+                    got = '%s: %s' % (type(e).__name__, str(e)[:80])
                 if got != want:
-                    _fail(fails, 'groupby of %r' % (vals,), 'groups-partition-in-order', got, want)
+                    _fail(fails, 'groupby(%s) of %r' % (gname, vals), 'groups-partition-in-order', got, want)
                     return cases, fails
     return cases, fails
 
@@ -386,3 +408,286 @@ def profiling_transparency(tier='quick'):
 def database(tier='quick'):
     from harness import database_standin
     return database_standin.search(tier)
+
+
+def numpy_indices(tier='quick'):
+    """C02 'including numpy integer types': ds[dtype(i)] behaves exactly like ds[int(i)] for fixed-width numpy scalars,
+    on pipelines long enough (300 examples) that narrow index arithmetic would wrap around or overflow."""
+    import warnings
+    import numpy as np
+    import lazy_dataset
+    fails, cases = [], 0
+    n = 300
+    src = lazy_dataset.new({'k%03d' % i: i for i in range(n)})
+    lst = lazy_dataset.new(list(range(n)))
+    pipes = {
+        'dict': src, 'list': lst, 'map': src.map(lambda x: x + 1), 'slice': src[10:], 'slice-list': src[list(range(0, n, 2))],
+        'batch(4)': src.batch(4), 'batch(7,drop_last)': src.batch(7, drop_last=True), 'concatenate': lst.concatenate(lst),
+        'tile(2)': lst.tile(2), 'cache': src.cache(), 'wu': lazy_dataset.from_list(list(range(n)), immutable_warranty='wu'),
+        'intersperse': lst.intersperse(lst[:100]), 'zip': lst.zip(lst), 'items': src.items(), 'key_zip': src.key_zip(src),
+        'shuffle-once': src.shuffle(rng=np.random.RandomState(0)), 'sort': src.sort(lambda x: -x),
+        'profiling': lazy_dataset.core.ProfilingDataset(src.batch(4)),
+    }
+    dts = (np.int8, np.uint8, np.int16, np.uint16, np.int32, np.int64) if tier != 'quick' else (np.int8, np.uint8, np.int16)
+    for name, ds in pipes.items():
+        m = len(ds)
+        idx = sorted({0, 1, 2, 63, 64, 65, 74, 100, 126, 127, 128, 129, 200, 254, 255, 256, m - 1, m, m + 1,
+                      -1, -2, -37, -100, -127, -128, -129, -m, -m - 1})
+        for dt in dts:
+            for i in idx:
+                try:
+                    v = dt(i)
+                except OverflowError:
+                    continue
+                cases += 1
+                with warnings.catch_warnings():
+                    warnings.simplefilter('ignore')
+                    try:
+                        got = ('v', ds[v])
+                    except Exception as e:      # noqa
+                        got = ('e', type(e).__name__)
+                try:
+                    exp = ('v', ds[int(i)])
+                except Exception as e:          # noqa
+                    exp = ('e', type(e).__name__)
+                if got != exp:
+                    _fail(fails, '%s (300 source examples)' % name, 'ds[np.%s(%d)]' % (dt.__name__, i), got, exp)
+    return cases, fails
+
+
+def offered_lengths(tier='quick'):
+    """C02, second sentence: whenever len(ds) is offered it equals the number of examples one iteration yields -- checked
+    on stages of data-dependent size (lazy apply, filter, catch, unbatch, dynamic buckets, prefetch) and stacks on them."""
+    import numpy as np
+    import lazy_dataset
+    fails, cases = [], 0
+    for n in (0, 1, 2, 5, 8):
+        src = lazy_dataset.new({'k%d' % i: i for i in range(n)})
+
+        def odd(x):
+            return x % 2 == 1
+
+        def boom(x):
+            if x % 3 == 0:
+                raise lazy_dataset.FilterException()
+            return x
+        bases = {
+            'apply(lazy, ds[:n//2])': src.apply(lambda d: d[:len(d) // 2], lazy=True),
+            'apply(lazy, filter eager)': src.apply(lambda d: d.filter(odd, lazy=False), lazy=True),
+            'apply(lazy, tile 2)': src.apply(lambda d: d.tile(2), lazy=True),
+            'apply(lazy, shuffle)': src.apply(lambda d: d.shuffle(rng=np.random.RandomState(1)), lazy=True),
+            'filter': src.filter(odd), 'map.catch': src.map(boom).catch(), 'batch.unbatch': src.batch(2).unbatch(),
+            'reshuffle': src.shuffle(reshuffle=True, rng=np.random.RandomState(0)),
+            'local-shuffle': src.shuffle(reshuffle=True, buffer_size=3, rng=np.random.RandomState(0)),
+            'prefetch(1,2)': src.prefetch(1, 2), 'prefetch catch': src.map(boom).prefetch(1, 2, catch_filter_exception=True),
+        }
+        if n:
+            bases['dynamic buckets'] = src.map(lambda x: {'len': x + 1}).batch_dynamic_time_series_bucket(
+                2, len_key='len', max_padding_rate=0.5)
+        stacked = {}
+        for name, ds in bases.items():
+            stacked[name] = ds
+            stacked[name + '.map'] = ds.map(lambda x: x)
+            stacked[name + '.batch(2)'] = ds.batch(2)
+            stacked[name + '.local-shuffle'] = ds.shuffle(reshuffle=True, buffer_size=2, rng=np.random.RandomState(2))
+        for name, ds in stacked.items():
+            cases += 1
+            try:
+                ln = len(ds)
+            except TypeError:
+                continue
+            except Exception as e:      # noqa
+                _fail(fails, '%s over %d examples' % (name, n), 'len refuses with TypeError', type(e).__name__, 'TypeError')
+                continue
+            try:
+                cnt = sum(1 for _ in ds)
+            except Exception as e:      # noqa
+                continue
+            if ln != cnt:
+                _fail(fails, '%s over %d examples' % (name, n), 'len == number of yielded examples', ln, cnt)
+    return cases, fails
+
+
+def c02_native(tier='quick'):
+    c1, f1 = numpy_indices(tier)
+    c2, f2 = offered_lengths(tier)
+    return c1 + c2, f1 + f2
+
+
+import collections as _collections
+_NT = _collections.namedtuple('_NT', 'v arr meta')      # module level: picklable
+
+
+def isolation_more(tier='quick'):
+    """C09 (continued): example shapes other than dicts (tuples / namedtuples holding mutable parts), and mutation INSIDE a
+    running first-epoch loop (`for x in ds: mutate(x)`), over items(), through a copy, and with an aborted epoch."""
+    import tempfile
+    import warnings
+    import numpy as np
+    import lazy_dataset
+    warnings.simplefilter('ignore')
+    fails, cases = [], 0
+    NT = _NT
+
+    shapes = {
+        'dict': (lambda i: {'v': [i, i + 1], 'arr': np.arange(3) + i, 'meta': {'k': i}},
+                 lambda x: (list(x['v']), x['arr'].tolist(), dict(x['meta'])),
+                 lambda x: (x['v'].append(99), x['arr'].__setitem__(0, 77), x['meta'].__setitem__('new', 1))),
+        'tuple': (lambda i: ([i, i + 1], np.arange(3) + i, {'k': i}),
+                  lambda x: (list(x[0]), x[1].tolist(), dict(x[2])),
+                  lambda x: (x[0].append(99), x[1].__setitem__(0, 77), x[2].__setitem__('new', 1))),
+        'namedtuple': (lambda i: NT([i, i + 1], np.arange(3) + i, {'k': i}),
+                       lambda x: (list(x.v), x.arr.tolist(), dict(x.meta)),
+                       lambda x: (x.v.append(99), x.arr.__setitem__(0, 77), x.meta.__setitem__('new', 1))),
+        'list': (lambda i: [[i, i + 1], np.arange(3) + i, {'k': i}],
+                 lambda x: (list(x[0]), x[1].tolist(), dict(x[2])),
+                 lambda x: (x[0].append(99), x[1].__setitem__(0, 77), x[2].__setitem__('new', 1))),
+    }
+
+    def loops(ds, keyed, mutate):
+        def full():
+            for x in ds:
+                mutate(x)
+
+        def full_items():
+            for _, x in ds.items():
+                mutate(x)
+
+        def aborted():
+            it = iter(ds)
+            mutate(next(it))
+            next(it, None)
+            del it
+
+        def via_copy():
+            for x in ds.copy(freeze=True) if False else ds.copy():
+                mutate(x)
+
+        def interleaved():
+            it = iter(ds)
+            x0 = next(it)
+            x1 = next(it, None)
+            mutate(x0)
+            if x1 is not None:
+                mutate(x1)
+            list(it)
+        hs = [('for x in ds: mutate(x)', full), ('aborted epoch after mutating the first example', aborted),
+              ('for x in ds.copy(): mutate(x)', via_copy), ('mutate after the next example was requested', interleaved)]
+        if keyed:
+            hs.append(('for k, x in ds.items(): mutate(x)', full_items))
+        return hs
+
+    def snap(ds, view):
+        return [view(x) for x in ds]
+    for sname, (mk, view, mutate) in shapes.items():
+        pristine = [view(mk(i)) for i in range(3)]
+        builders = []
+        for mode in ('pickle', 'copy', 'wu'):
+            builders.append(('new(list of %s, %s)' % (sname, mode), False,
+                             (lambda mode=mode: lazy_dataset.new([mk(i) for i in range(3)], immutable_warranty=mode) if mode != 'wu'
+                              else lazy_dataset.from_list([mk(i) for i in range(3)], immutable_warranty='wu'))))
+            if mode != 'wu':
+                builders.append(('new(dict of %s, %s)' % (sname, mode), True,
+                                 (lambda mode=mode: lazy_dataset.new({'k%d' % i: mk(i) for i in range(3)}, immutable_warranty=mode))))
+        rebuild = (lambda x: mk(view(x)[2]['k']))       # a map function that builds a fresh example every time
+        builders.append(('map(fresh %s).cache()' % sname, True,
+                         lambda: lazy_dataset.new({'k%d' % i: i for i in range(3)}).map(lambda i: mk(i)).cache()))
+        builders.append(('map(fresh %s).diskcache()' % sname, True,
+                         lambda: lazy_dataset.new({'k%d' % i: i for i in range(3)}).map(lambda i: mk(i)).diskcache(
+                             tempfile.mkdtemp(prefix='verif_dc_') + '/c')))
+        for bname, keyed, build in builders:
+            n_h = len(loops(build(), keyed, mutate))
+            for hi in range(n_h):
+                cases += 1
+                ds = build()
+                hname, h = loops(ds, keyed, mutate)[hi]
+                try:
+                    h()
+                except Exception as e:      # noqa
+                    _fail(fails, '%s; %s' % (bname, hname), 'history runs', type(e).__name__ + ': ' + str(e)[:80], 'no exception')
+                    continue
+                for path, got in (('iteration', lambda: snap(ds, view)), ('index', lambda: [view(ds[i]) for i in range(3)]),
+                                  ('copy', lambda: snap(ds.copy(), view))):
+                    g = got()
+                    if g != pristine:
+                        _fail(fails, '%s; %s; then read by %s' % (bname, hname, path), 'isolation-of-handed-out-examples', g, pristine)
+                        break
+    return cases, fails
+
+
+def c09_native(tier='quick'):
+    c1, f1 = isolation(tier)
+    c2, f2 = isolation_more(tier)
+    return c1 + c2, f1 + f2
+
+
+def profiling_stage_counts(tier='quick'):
+    """C20: per-stage hit counts on linear element-wise pipelines (map, slice, one-time shuffle, reshuffle, local shuffle,
+    catch, single-thread prefetch, cache): every stage is asked for exactly the examples the consumer receives, so after E
+    full epochs every wrapper node must report E * n hits and no failed hits; and the profiled pipeline delivers what an
+    identically seeded unprofiled twin delivers."""
+    import numpy as np
+    import lazy_dataset
+    from lazy_dataset.core import ProfilingDataset
+    fails, cases = [], 0
+
+    def f(x):
+        return x + 1
+
+    def builders(n):
+        def src():
+            return lazy_dataset.new({'k%d' % i: i for i in range(n)})
+        return {
+            'map': lambda: src().map(f),
+            'map.slice': lambda: src().map(f)[1:],
+            'map.shuffle(False)': lambda: src().map(f).shuffle(rng=np.random.RandomState(3)),
+            'map.reshuffle': lambda: src().map(f).shuffle(reshuffle=True, rng=np.random.RandomState(3)),
+            'map.reshuffle.catch': lambda: src().map(f).shuffle(reshuffle=True, rng=np.random.RandomState(3)).catch(),
+            'map.reshuffle.map.catch': lambda: src().map(f).shuffle(reshuffle=True, rng=np.random.RandomState(3)).map(f).catch(),
+            'map.reshuffle.prefetch(1,2)': lambda: src().map(f).shuffle(reshuffle=True, rng=np.random.RandomState(3)).prefetch(1, 2),
+            'map.local-shuffle.catch': lambda: src().map(f).shuffle(reshuffle=True, buffer_size=2, rng=np.random.RandomState(3)).catch(),
+            'map.cache.map': lambda: src().map(f).cache().map(f),
+            'map.sort.catch': lambda: src().map(f).sort(lambda x: -x).catch(),
+        }
+
+    def nodes(p):
+        out = []
+        cur = p
+        while isinstance(cur, ProfilingDataset):
+            out.append(cur)
+            inner = cur.input_dataset
+            cur = getattr(inner, 'input_dataset', None)
+        return out
+    for n in ((3, 6) if tier == 'quick' else (1, 3, 6, 9)):
+        for name, build in builders(n).items():
+            cases += 1
+            sc = 'ProfilingDataset(%s) over %d examples' % (name, n)
+            try:
+                plain = build()
+                e_plain = [list(plain) for _ in range(2)]
+            except Exception:      # noqa
+                continue            # the pipeline itself is refused (e.g. catch over a local shuffle): nothing to profile
+            try:
+                p = ProfilingDataset(build())
+                e_prof = [list(p) for _ in range(2)]
+            except Exception as e:      # noqa
+                _fail(fails, sc, 'profiled pipeline runs like its twin', '%s: %s' % (type(e).__name__, str(e)[:100]), 'no exception')
+                continue
+            if e_prof != e_plain:
+                _fail(fails, sc, 'same examples and order as an identically seeded unprofiled twin', e_prof, e_plain)
+                continue
+            delivered = sum(len(e) for e in e_prof)
+            if 'cache' in name:
+                continue        # stages below a cache are legitimately asked once only
+            for depth, node in enumerate(nodes(p)):
+                if list(node.hit_count) != [delivered, 0]:
+                    _fail(fails, sc, 'hit count of wrapper node %d (%s)' % (depth, type(node.input_dataset).__name__),
+                          list(node.hit_count), [delivered, 0])
+                    break
+    return cases, fails
+
+
+def c20_native(tier='quick'):
+    c1, f1 = profiling_transparency(tier)
+    c2, f2 = profiling_stage_counts(tier)
+    return c1 + c2, f1 + f2
